@@ -429,6 +429,22 @@ def c_api_surface(ctx, args):
         want = [ctx.model.call('expect', x, obs) for x in ts]
         if got != want:
             return bad('vectorizable_expct (batched)', got, want)
+        # ... of a polynomial and of a single Pauli: the coefficient-weighted sum of Tr(rho sigma_k), phases i / -i of the terms included
+        import torch as _t
+        terms = [[gen.rstr(rng, n) if rng.random() < 0.5 else ts[0][0][rng.randrange(n)][0], rng.randint(0, 3), complex(rng.choice([1, -1, 2, 0.5]), rng.choice([0, 0, 1, -0.5]))] for _ in range(rng.randint(1, 4))]
+        poly = tc.paulialg.PauliPolynomial(TT.GS([x[0] for x in terms], 2 * n), TT.PS([x[1] for x in terms])).set_cs(_t.tensor([x[2] for x in terms], dtype=_t.complex64))
+        gotp = [complex(v) for v in TST.vectorizable_expct([TT.STATE(x) for x in ts], poly)]
+        wantp = []
+        for x in ts:
+            ex = ctx.model.call('expect', x, [[y[0], 0] for y in terms])
+            wantp.append(sum(y[2] * (1j ** y[1]) * e for y, e in zip(terms, ex)))
+        if any(abs(a_ - b_) > 1e-5 for a_, b_ in zip(gotp, wantp)):
+            return bad('vectorizable_expct (batched) of a polynomial: not the coefficient- and phase-weighted sum of the term expectations', [[v.real, v.imag] for v in gotp], [[v.real, v.imag] for v in wantp])
+        o1 = gen.rpauli(rng, n)
+        got1 = [complex(v) for v in TST.vectorizable_expct([TT.STATE(x) for x in ts], TT.P(o1))]
+        want1 = [(1j ** o1[1]) * ctx.model.call('expect', x, [[o1[0], 0]])[0] for x in ts]
+        if any(abs(a_ - b_) > 1e-5 for a_, b_ in zip(got1, want1)):
+            return bad('vectorizable_expct (batched) of a single Pauli with a phase', [[v.real, v.imag] for v in got1], [[complex(v).real, complex(v).imag] for v in want1])
     return None
 
 
